@@ -74,7 +74,9 @@ ShapeDef(i) ==
                   @@ A("S1", 1, 8) :> [c |-> "const", v |-> [t |-> "float", v |-> "9007199254740993"]]   \* a whole number no double holds
                   @@ A("S1", 1, 9) :> [c |-> "const", v |-> Txt(<<>>)]          \* an empty text that no range covers
                   @@ A("S1", 1, 10) :> [c |-> "const", v |-> DateT(43890, 1, 8192)]  \* 00:00:10.546875 - microseconds that are no whole milliseconds
+                  @@ A("S1", 1, 11) :> [c |-> "const", v |-> Txt(<<73, 110, 102, 105, 110, 105, 116, 121>>)]   \* the TEXT "Infinity" (a token of some number formats)
                   @@ A("S 2", 1, 1) :> Kc(1)
+                  @@ A("S1", 2, 8) :> Fm(Bin("&", RelRef(1, 11), StrLit(<<45, 73, 110, 102, 105, 110, 105, 116, 121, 32, 78, 97, 78>>)))   \* ... & "-Infinity NaN"
                   @@ A("S1", 2, 1) :> Fm(Bin("/", N1, Bin("-", RelRef(1, 1), N1)))
                   @@ A("S1", 2, 2) :> Fm(Bin("&", RelRef(1, 2), StrLit(<<120>>)))
                   @@ A("S1", 2, 3) :> Fm(Bin(">", RelRef(1, 1), N1))
